@@ -135,7 +135,8 @@ def execute(case):
         ds = ds.assign_coords(facelabel=("d9", np.arange(nf)))
     if not case["facedim_in_ds"] and kind == "var":
         ds["facemask"] = ("d9", np.arange(nf))
-    fc = faces.fc_dict(case["table"], nf, "d9" if case["facedim_in_ds"] else {"missing": "d_missing", "coord": "facelabel", "var": "facemask"}[kind])
+    fc = faces.fc_dict(case["table"], nf, "d9" if case["facedim_in_ds"] else {"missing": "d_missing", "coord": "facelabel", "var": "facemask"}[kind],
+                       order=case.get("order"))
     if case["nfacedims"] == 2:
         fc["d_second"] = {0: {}}
     gc = {"a1": {"center": "d1", "left": "d2"}}
